@@ -1112,6 +1112,57 @@ def vc_rename_has_both_names(fns, variants, work):
     return summarize(eng, found, {"is_rename_sites_reached": reached[0]}, work, "c11r", witness_ok=reached[0] > 0, witness_note="is_rename call not reached")
 
 
+def vc_every_file_patch_registered(fns, variants, work):
+    """parallel::apply_patches, scheduling loop: between taking a file patch from a patch's list and taking the next one (or leaving
+    the loop), FilenameDistributor::add has been called for it; nothing is registered after build().  (What add/build do with the
+    names is decided by Kani; this VC is about the driver feeding every file patch in.)"""
+    fn = find_fn(fns, r"^parallel::apply_patches$")
+    found, reached = [], {"next": 0, "add": 0}
+    NEXT = r"slice::Iter<'_, (libpatch::patch::)?FilePatch<.*>> as Iterator>::next$"
+
+    def pending(eng, st):
+        d = st.store.get("ghost:taken")
+        if d is None:
+            return False
+        ok, _ = eng.feasible(st, [d == 1])
+        eng.record_query("pending", list(st.pc) + [d == 1])
+        return ok
+
+    def on_call(eng, st, bb, site, stmt, dst, callee, args, nxt):
+        if re.search(NEXT, callee):
+            reached["next"] += 1
+            if pending(eng, st):
+                found.append({"bb": bb, "stmt": stmt[:160], "what": "a file patch is taken from the list while the previous one was never handed to FilenameDistributor::add "
+                              "(its names are not related / not registered: two workers can end up with one file)", "model": {}, "trace": list(st.trace[-14:])})
+        elif re.search(r"FilenameDistributor::<.*>::add$", callee):
+            reached["add"] += 1
+            st.store.pop("ghost:taken", None)
+        elif re.search(r"FilenameDistributor::<.*>::build$", callee):
+            if pending(eng, st):
+                found.append({"bb": bb, "stmt": stmt[:160], "what": "the worker map is built while a file patch taken from the list was never registered", "model": {}, "trace": list(st.trace[-14:])})
+            return []        # the rest of the function is other checks' subject
+        return None
+
+    def after_call(eng, st, bb, site, stmt, dst, callee, args, argv):
+        if not dst:
+            return
+        if re.search(NEXT, callee):
+            dpath, _ = eng.resolve(st, dst)
+            st.store["ghost:taken"] = eng.read_path(st, dpath + "#disc", "isize")
+
+    eng = Engine(fns, fn, variants, hooks={"on_call": on_call, "after_call": after_call})
+    seeds = set()
+    for bb, stmts in fn.blocks.items():
+        for s_ in stmts:
+            m = callm(s_, need_dst=True)
+            if m and re.search(NEXT, m.group(2)):
+                seeds.add(m.group(1))
+    eng.seeds = seeds
+    eng.run()
+    return summarize(eng, found, {"next_sites_reached": reached["next"], "add_sites_reached": reached["add"]}, work, "c07f",
+                     witness_ok=reached["next"] > 1 and reached["add"] > 0, witness_note="loop not entered twice / add not reached: %r" % reached)
+
+
 def vc_unsafe_component_table(fns, variants, work):
     """is_unsafe's closure: a component is dangerous iff it is a Prefix, the root or '..' (std::path::Component's declaration
     order Prefix, RootDir, CurDir, ParentDir, Normal is the trusted fact behind the discriminant numbers)."""
